@@ -298,6 +298,17 @@ func TestC18(t *testing.T) {
 	c.Assume("R8: no http(s) references, stdin is /dev/null")
 	eval := func(r *core.Replay) (bool, string, error) {
 		cc := &c18Case{Kind: r.Note, Case: r.Case, Argv: r.Argv, MustErr: strings.Contains(r.Expected, "must fail"), What: r.Note}
+		if r.Check == "cli-hang" {
+			// witness of a known non-termination: a short limit keeps the replay cheap
+			res, err := gen.RunCLI(cc.Case, nil, cc.Argv, 15*time.Second, false)
+			if err != nil {
+				return false, "", err
+			}
+			if res.TimedOut {
+				return true, "the tool did not terminate within 15 s on a 1 kB schema (" + cc.What + ")", nil
+			}
+			return false, "", nil
+		}
 		if strings.HasPrefix(r.Check, "cli") {
 			cc.Pre = map[string]string{"out/existing.go": "package keep\n"}
 			return evalC18CLI(cc)
